@@ -163,7 +163,7 @@ static void vl_world_init(void) {
 	g_vr_chainlist.length = vl_length; g_vr_chainlist.elementAt = vl_elementAt;
 	g_vl_n = nondet_size() & VL_MAX_LIST; g_vl_calls = 0; g_vl_prev = NULL; g_vl_fail = 0; g_vl_na = 0;
 	g_vl_rfc_ret = nondet_int();
-	g_vi_calls = 0; g_vi_prev_fetched = 0;
+	g_vi_calls = 0; g_vi_prev_fetched = 0; g_vl_il_len[0] = 0; g_vl_il_len[1] = 0;
 	g_vl_level = 0; g_vl_aggs = 0;
 	vl_chain_init(&g_vl_c[0], 0); vl_chain_init(&g_vl_c[1], 1);
 	g_vl_time[0].ref = 1; g_vl_time[1].ref = 1; g_vl_algid[0].ref = 1; g_vl_algid[1].ref = 1;
@@ -172,6 +172,66 @@ static void vl_world_init(void) {
 	g_vl_il[0].length = vl_il_length; g_vl_il[0].elementAt = vl_il_elementAt;
 	g_vl_il[1].length = vl_il_length; g_vl_il[1].elementAt = vl_il_elementAt;
 #endif
+}
+
+/* ------------------------------------------------ RFC3161 pre-checks (first-element model of the chain list) ------------------------------------------------ */
+/* INT-12, RFC3161 part: the record's chain index equals the first chain's chain index (same length, same elements).
+ * Two model index lists: g_ri_l[0] belongs to the first chain, g_ri_l[1] to the RFC3161 record; lengths below 2^32
+ * (a TLV holds at most 65535 octets); elements are fetched pairwise at one position and compared by the monitor. */
+KSI_LIST(KSI_Integer) g_ri_l[2];
+size_t g_ri_len[2];
+struct KSI_Integer_st g_ri_v[2];
+size_t g_ri_calls; _Bool g_ri_first_fetched; _Bool g_ri_mismatch;
+static size_t ri_length(KSI_LIST(KSI_Integer) *l) {
+	__CPROVER_assert(l == &g_ri_l[0] || l == &g_ri_l[1], "index list of the first chain or of the RFC3161 record");
+	if (l == &g_ri_l[0]) return g_ri_len[0];
+	return g_ri_len[1];
+}
+static int ri_elementAt(KSI_LIST(KSI_Integer) *l, size_t pos, KSI_Integer **o) {
+	__CPROVER_assert(l == &g_ri_l[0] || l == &g_ri_l[1], "index list of the first chain or of the RFC3161 record");
+	__CPROVER_assert(!g_ri_mismatch, "protocol: no element is fetched after a mismatch");
+	__CPROVER_assert(pos == g_ri_calls && pos < g_ri_len[0] && pos < g_ri_len[1], "protocol: common positions, each once, in order");
+	if (l == &g_ri_l[0]) {
+		__CPROVER_assert(!g_ri_first_fetched, "first chain's element first");
+		g_ri_v[0].value = nondet_ull(); g_ri_first_fetched = 1;
+		*o = &g_ri_v[0];
+	} else {
+		__CPROVER_assert(g_ri_first_fetched, "record's element second");
+		g_ri_v[1].value = nondet_ull(); g_ri_first_fetched = 0; g_ri_calls++;
+		if (g_ri_v[0].value != g_ri_v[1].value) g_ri_mismatch = 1;
+		*o = &g_ri_v[1];
+	}
+	return KSI_OK;
+}
+static void ri_world_init(void) {
+	vr_world_init();
+	g_ri_l[0].length = ri_length; g_ri_l[0].elementAt = ri_elementAt; g_ri_l[1].length = ri_length; g_ri_l[1].elementAt = ri_elementAt;
+	g_ri_len[0] = nondet_size() & 0xffffffffUL; g_ri_len[1] = nondet_size() & 0xffffffffUL;
+	g_ri_v[0].ref = 1; g_ri_v[1].ref = 1; g_ri_calls = 0; g_ri_first_fetched = 0; g_ri_mismatch = 0;
+	g_vr_chain0.chainIndex = &g_ri_l[0]; g_vr_rfc.chainIndex = &g_ri_l[1];       /* mandatory fields of both TLV templates */
+}
+/* status classes of the pre-checks */
+#define VR_RFC_OK 0
+#define VR_RFC_MISMATCH 1      /* KSI_VERIFICATION_FAILURE: the compared values differ */
+#define VR_RFC_ERROR 2         /* any other status: a value cannot be obtained */
+#define VR_RFC_ANY 3           /* malformed world (mandatory field absent): no demand */
+static int vr_rfc_class(int status) { return status == KSI_OK ? VR_RFC_OK : status == KSI_VERIFICATION_FAILURE ? VR_RFC_MISMATCH : VR_RFC_ERROR; }
+/* INT-02, RFC3161 part: the record's aggregation time equals the first chain's */
+static int vr_exp_rfc_aggr_time(const KSI_CTX *ctx, const KSI_Signature *sig) {
+	const KSI_AggregationHashChain *c;
+	if (ctx == NULL || sig == NULL) return VR_RFC_ERROR;
+	if (sig->rfc3161 == NULL) return VR_RFC_OK;
+	c = vr_first_chain(sig);
+	if (c == NULL) return VR_RFC_ERROR;
+	if (c->aggregationTime == NULL || sig->rfc3161->aggregationTime == NULL) return VR_RFC_ANY;
+	return c->aggregationTime->value == sig->rfc3161->aggregationTime->value ? VR_RFC_OK : VR_RFC_MISMATCH;
+}
+static int vr_exp_rfc_chain_index(const KSI_CTX *ctx, const KSI_Signature *sig) {
+	if (ctx == NULL || sig == NULL) return VR_RFC_ERROR;
+	if (sig->rfc3161 == NULL) return VR_RFC_OK;
+	if (vr_first_chain(sig) == NULL) return VR_RFC_ERROR;
+	if (g_ri_len[0] != g_ri_len[1] || g_ri_mismatch) return VR_RFC_MISMATCH;
+	return VR_RFC_OK;
 }
 
 /* verdict of a chain-walking rule from the monitor: `code` is the rule's error code; rfc_checked: the rule first runs an
